@@ -74,7 +74,8 @@ def zone_state(z, relativize):
     for i in range(len(POOL)):
         r = rr(("rec", i), relativize)
         rds = z.get_rdataset(r.name, r.rdtype)
-        if rds is not None and r[0] in rds:
+        # (compared by meaning: records parsed from wire carry names relative to the origin, pool records absolute ones)
+        if rds is not None and any([x.to_wire(origin=ORIGIN) == r[0].to_wire(origin=ORIGIN) for x in rds]):
             present.append(i)
     count = 0
     for name, node in z.nodes.items():
@@ -128,6 +129,10 @@ def feed(z, msgs, rdtype, serial, is_udp):
                 if done:
                     # messages after completion are never read by the socket loop
                     break
+                if S("wire"):
+                    # as dns.query._inbound_xfr receives it: parsed from wire in transfer mode
+                    w = m.to_wire(origin=ORIGIN, want_shuffle=False)
+                    m = dns.message.from_wire(w, xfr=True, origin=z.from_wire_origin(), one_rr_per_rrset=(rdtype == dns.rdatatype.IXFR))
                 done = inbound.process_message(m)
     except (dns.exception.DNSException, KeyError, ValueError) as e:
         return done, e
@@ -372,6 +377,11 @@ def h13b_shards(tier):
             for fault in FAULTS:
                 out.append({"zone": kind, "relativize": True, "form": form, "fault": fault, "n": lens[form],
                             "serials": [1, 8] if tier == "quick" else list(range(len(SPOOL))), "_timeout": 1200, "_path_timeout": 60})
+        # the same faults with every message rendered and parsed back in transfer mode (the socket path)
+        for form in (("axfr",) if tier == "quick" else tuple(lens)):
+            for fault in (("none", "dup", "swap", "surplus") if tier == "quick" else FAULTS):
+                out.append({"zone": kind, "relativize": True, "form": form, "fault": fault, "n": lens[form], "wire": True,
+                            "serials": [1] if tier == "quick" else [1, 8], "_timeout": 1200, "_path_timeout": 60})
     return out
 
 
@@ -410,7 +420,7 @@ HARNESSES = [
             stubs=["E6"], outside="chains > 2 steps, > 3 messages, TSIG on transfers, the socket loop"),
     Harness("H13b", h13b, h13b_pre, h13b_shards, kind="finite selection (fault kind, position, cut), universal serial",
             encodes=["dns.xfr.Inbound.process_message", "dns.xfr.Inbound.__exit__", "dns.transaction.Transaction.delete_exact"],
-            bound="11 fault kinds (none, drop, duplicate, swap, truncate, corrupt SOA serial, surplus record after the final SOA, out-of-zone glue, SERVFAIL rcode, wrong question, serial going backwards) at every position of 3 stream forms, every cut into 2 messages; base serial from the pool (quick: 1 and 2^32-1)",
+            bound="messages as objects, and (AXFR with 4 fault kinds; thorough: all) rendered and parsed back with from_wire(xfr=True) as the socket path does; 11 fault kinds (none, drop, duplicate, swap, truncate, corrupt SOA serial, surplus record after the final SOA, out-of-zone glue, SERVFAIL rcode, wrong question, serial going backwards) at every position of 3 stream forms, every cut into 2 messages; base serial from the pool (quick: 1 and 2^32-1)",
             stubs=["E6"], outside="double faults; > 2 messages"),
     Harness("H13c", h13c, h13c_pre, lambda tier: [{"_timeout": 300}], kind="finite selection",
             encodes=["dns.xfr.make_query", "dns.xfr.extract_serial_from_query"], bound="10 boundary serials from -2 to 2^32+1 (finite selection)", stubs=["E6"], outside=""),
